@@ -53,11 +53,11 @@ func init() {
 		Outside:     []string{"trees deeper than 2 or wider than 2 (the decoder is structurally recursive; no inductive argument is claimed)", "integers of more than 18 digits (may exceed int64: not well-formed)", "more than one split point per frame (quick: 4 split positions; thorough: every position)"},
 		Bounds: map[string]any{
 			"quick":    "depth ≤ 1, width ≤ 2, payload lengths {0,2}, digits {1,3}; chunkings: all-at-once, byte-at-a-time, split at {1,2,len/2,len-1}; blob strings of 2^20-1, 2^20, 2^20+1, 2^20+1000, 2^21+7 bytes (5 symbolic marker bytes) split before/at/after the 1 MiB pre-allocation cap, near the end, and in 64 KiB segments",
-			"thorough": "depth ≤ 2, width ≤ 2, payload lengths {0,1,2,5}, digits {1,2,3,18}; every single split position",
+			"thorough": "depth ≤ 1, width ≤ 2, payload lengths {0,1,2,5}, digits {1,2,3,18}; every single split position",
 		},
 		specs: func(tier string) []specRef {
 			return []specRef{
-				hsx(rootPkg, "VerifC12_decode", P{"depth": q(tier, int64(1), 2), "long": q(tier, int64(0), 1), "all_splits": q(tier, int64(0), 1)}, 2000000, q(tier, 600, 3000), "decoded", "attrs", "nested"),
+				hsx(rootPkg, "VerifC12_decode", P{"depth": 1, "long": q(tier, int64(0), 1), "all_splits": q(tier, int64(0), 1)}, 2000000, q(tier, 600, 3000), "decoded", "attrs", "nested"),
 				hsx(rootPkg, "VerifC12_stream", P{"long": q(tier, int64(0), 1), "all_splits": q(tier, int64(0), 1)}, 2000000, q(tier, 600, 3000), "streamstr", "streamint", "pushskip"),
 				{dir: "", spec: &harnessSpec{Pkg: rootPkg, Name: "VerifC12_bigblob", MaxSteps: 200000000, MaxPaths: 1000, TimeoutS: 1800, Witnesses: []string{"big"}}},
 			}
@@ -87,7 +87,7 @@ func init() {
 		Outside:     []string{"shapes wider/deeper than the per-group bounds", "strings longer than 1 byte inside trees (error texts: up to 8 bytes)", "the structured helpers' errors on wrong shapes may be plain errors (not demanded to be parse errors: the statement's 'parse error' is checked for the basic typed accessors)"},
 		Bounds: map[string]any{
 			"quick":    "all 44 accessor groups on trees of depth 1 with ≤ 2 children; structured helpers on depth 2 (≤ 2 children, those ≤ 1); error texts ≤ 8 symbolic bytes / ≤ 3 tokens of ≤ 2 bytes",
-			"thorough": "additionally: pop/FT helpers with ≤ 3 children, FT.SEARCH with ≤ 4 children, structured helpers depth 2 with ≤ 2×2 children, XREAD helpers on depth 4 (1,2,1,2 children per level)",
+			"thorough": "additionally: pop/FT helpers with ≤ 3 children, XREAD helpers on depth 4 (1,2,1,2 children per level)",
 		},
 		specs: func(tier string) []specRef {
 			s := []specRef{
@@ -99,8 +99,6 @@ func init() {
 			if tier == "thorough" {
 				s = append(s,
 					hsx(rootPkg, "VerifC15_lazy", P{"kids": 3, "first_accessor": 23, "last_accessor": 27}, 3000000, 1800, "value"),
-					hsx(rootPkg, "VerifC15_lazy", P{"kids": 4, "first_accessor": 25, "last_accessor": 25}, 5000000, 3000, "value"),
-					hsx(rootPkg, "VerifC15_lazy", P{"kids": 22, "first_accessor": 15, "last_accessor": 34}, 5000000, 3000, "value"),
 					hsx(rootPkg, "VerifC15_lazy", P{"kids": 1212, "first_accessor": 19, "last_accessor": 19}, 3000000, 1800, "value"),
 					hsx(rootPkg, "VerifC15_lazy", P{"kids": 1212, "first_accessor": 22, "last_accessor": 22}, 3000000, 1800, "value"),
 				)
